@@ -19,7 +19,7 @@ ALPHABETS = {
 LINES = ['foo', '# h', '---', '===', '- a', '  b', '    c', '```', '> q', '1. x', '', '| a | b |', '|---|---|',
          '[l]: /u', '[l]', '<div>', '***', '  - n', '~~~', '2) y', '   ', '+', '_e_ `c`', '\\', '</div>', '<!-- c',
          '-->', '   foo', '* * *', '>']
-LINES_C01_EXTRA = ['$m$ [[a|b]]', '{{m}}', '\tt', '``` py']
+LINES_C01_EXTRA = ['$m$ [[a|b]]', '{{m}}', '\tt', '``` py', '![f $m$ <b>](/i)']
 
 EDIT_SMALL = ['*', '_', '`', '[', ']', '(', ')', '<', '>', '\n', ' ', '\\', '-', '#', '{', '%']
 EDIT_LARGE = EDIT_SMALL + ['!', '"', "'", '&', ';', '|', '~', '=', '+', '1', '.', ':', '/', '\t', 'a', '$', '}', '%s', '{0}',
